@@ -402,6 +402,9 @@ func (e *Enc) convert(fr *Frame, x *ssa.Convert, st *State, reach Term) Term {
 		_ = tbits
 		return wrapMod(v, to)
 	case fromInt && ts == SF64:
+		if e.topCon != nil && e.topCon.AbstractFloat {
+			return e.fresh("i2f_abs", SF64)
+		}
 		r := e.def("i2f", T(SF64, "((_ to_fp 11 53) RNE (to_real %s))", v.S))
 		// helper facts the solvers do not derive through to_real: zero maps to +0, nothing else maps to a zero, sign is kept
 		e.assume(tTrue, T(SBool, "(= (= %s 0) (fp.isZero %s))", v.S, r.S))
@@ -539,7 +542,60 @@ func (e *Enc) alloc(fr *Frame, x *ssa.Alloc, st *State, reach Term) {
 		key := e.cellKey(s)
 		e.heapSet(st, key, store(e.heapGet(st, key), ref, e.zero(el)))
 		fr.addrs[x] = &Addr{kind: ACell, key: key, ref: ref, sort: s, typ: el}
+		if cellWrittenOnlyHere(x) {
+			e.roCells = append(e.roCells, roCell{key, ref, s})
+		}
 	}
+}
+
+type roCell struct {
+	key  string
+	ref  Term
+	sort string
+}
+
+// cellWrittenOnlyHere: a local variable that lives in a heap cell only because closures capture it, where no closure
+// writes it and its address goes nowhere else.  Only the stores of the declaring function (which are encoded) can
+// change such a cell, so its value survives any call, including calls that run the closures.
+func cellWrittenOnlyHere(x *ssa.Alloc) bool {
+	refs := x.Referrers()
+	if refs == nil {
+		return false
+	}
+	for _, r := range *refs {
+		switch u := r.(type) {
+		case *ssa.Store:
+			if u.Val == ssa.Value(x) {
+				return false
+			}
+		case *ssa.UnOp, *ssa.DebugRef:
+		case *ssa.MakeClosure:
+			fn, ok := u.Fn.(*ssa.Function)
+			if !ok {
+				return false
+			}
+			for i, b := range u.Bindings {
+				if b != ssa.Value(x) {
+					continue
+				}
+				fv := fn.FreeVars[i]
+				frefs := fv.Referrers()
+				if frefs == nil {
+					return false
+				}
+				for _, fr := range *frefs {
+					switch fr.(type) {
+					case *ssa.UnOp, *ssa.DebugRef:
+					default:
+						return false
+					}
+				}
+			}
+		default:
+			return false
+		}
+	}
+	return true
 }
 
 func (e *Enc) indexAddr(fr *Frame, x *ssa.IndexAddr, st *State, reach Term, pos string) {
